@@ -6,10 +6,46 @@ BASELINE_OFF = "cd /repo && GOFLAGS=-mod=mod GOPROXY=off GOSUMDB=off go test -js
 
 CLAIMED = {
     # id: (level, text, note, technique, design_ref)
+    "C01": ("proof",
+            "Verified validator: Lean theorems (check_sound, tables_exact, tables_decide, parse_decides, unambiguous) say that whenever LR.check accepts (grammar, emitted arrays, item-set certificate) the table-driven parser and the model of the generated parse() accept exactly the derivations of the grammar, for every token sequence. The validator runs on the arrays read back from every parser.gen.go the real generator emits for random sugar grammars; compiled generated parsers are compared with the runtime model on every input; membership is cross-checked by an independent recogniser.",
+            TB + " Programs (grammars) are sampled; inputs are covered by the theorems per validated grammar.",
+            "Lean 4 proof-carrying validation (LR validator soundness/completeness) + differential correspondence of the runtime model with compiled generated parsers", "§7 C01"),
+    "C02": ("proof",
+            "Verified validator: bisim_sound says that when Lex.bisim accepts (rules as regular expressions, emitted mode table) the table run equals the rule-level spec (viability, earliest matching rule) on every string; munch lifts it to ReadToken (longest viable prefix). Runs on every mode table emitted for random lexer specs; compiled lexers under the real simplelexer are compared with the Lean model and with an independent reference lexer.",
+            TB, "Lean 4 proof-carrying validation (Antimirov derivatives, bisimulation checker soundness) + differential correspondence", "§7 C02"),
+    "C03": ("proof",
+            "actions_postorder / parse_actions_postorder: for validated tables the logged action calls are exactly the post-order of the unique derivation tree with children in production order; sugar interpretation model (interp) is tied to compiled parsers (values of ?, *, +, *!, @list) on every run.",
+            TB, "Lean 4 theorems over the LR machine + differential correspondence of action logs", "§7 C03"),
+    "C04": ("proof",
+            "Decision logic of resolveConflicts proved for all action cells (only one-rule S/R pairs with explicit precedences are settled, exactly one action kept, verdict = some cell keeps more than one action); accepted tables are validated (no hidden conflict, no missing lookahead); verdict and automaton are compared with an independent LALR(1) reference on random and classic grammars.",
+            TB + " Lookahead minimality (no invented conflict) rests on the reference comparison (a test), stated in the evidence.",
+            "Lean 4 theorems on the resolution logic + verified validator + reference LALR(1) construction", "§7 C04"),
+    "C05": ("proof",
+            "op_machine_climb: a shift-reduce machine whose decisions follow the documented relation builds the precedence-climbing tree for all operator sequences; resolve_documented_partial: resolveConflicts yields that relation except for @right (known finding K1, negation proved on the calc cell). Compiled expression parsers over random operator tables are compared with precedence climbing; deviations are accepted only when explained by K1.",
+            TB + " Partial: @right is a recorded known finding.",
+            "Lean 4 theorem (operator-precedence machine = precedence climbing) + correspondence", "§7 C05"),
+    "C07": ("proof",
+            "all_effective_frag/token, runActions_mode_stack, mode_stack_discipline, accum_prefix over the model of PushRune/simplelexer for all tables satisfying wfModes and all inputs; wfModes and the model are tied to every emitted lexer; expected action pairs (mode actions in written order, terminal last) are checked by the table validator.",
+            TB, "Lean 4 invariants over the lexer runtime model + validators + correspondence", "§7 C07"),
+    "C10": ("proof",
+            "Table codec theorems for all row lists (roundtrip, find_correct, shared_only_if_equal, indices_in_range, rowKey_injective), lexer row codec, decode_wf/table_faithful for mode tables, LR.check for parser tables; ties: table family vs newTable/AddRow/Array, validators on every emitted table.",
+            TB, "Lean 4 theorems on the table codec + proof-carrying validation of emitted tables", "§7 C10"),
+    "C11": ("proof",
+            "progress, lexAll_terminates, conservation (segments partition the input), no_oob for all tables satisfying wfModes and all inputs; K3 (rule matching the empty string) and K5 (accumulated text dropped at EOF) are recorded known findings with kernel-checked negative witnesses.",
+            TB + " Partial: K3, K5.", "Lean 4 termination/conservation theorems over the lexer runtime model + correspondence", "§7 C11"),
+    "C14": ("translation_validation",
+            "Exhaustive: the four directories with checked-in generated code are regenerated with the generator built from the working tree and compared byte for byte; the checked-in tables additionally pass the Lean validators against the grammar/rules in the same directory.",
+            "Finite statement about the working tree; Lean validators supply the semantic half.", "regeneration + byte comparison + Lean validators", "§7 C14"),
     "C15": ("proof",
-            "Lean theorems over the model of rang3 (Flatten/Subtract/Normalize, class evaluation) for all lists of ranges; the model is tied to the Go functions by an exhaustive small-universe + boundary-sampling correspondence run on every check.",
-            "Trusted: Lean kernel (axioms ⊆ propext, Classical.choice, Quot.sound), the correspondence harness, int32-without-overflow reading of rune arithmetic.",
+            "Lean theorems over the model of rang3 (Flatten/Subtract/Normalize, class evaluation, relabelling callbacks) for all lists of ranges; the model is tied to the Go functions by an exhaustive small-universe + boundary-sampling correspondence run on every check.",
+            TB + " int32-without-overflow reading of rune arithmetic.",
             "Lean 4 theorems (induction over range lists) + differential correspondence model↔Go", "§7 C15"),
+    "C16": ("proof",
+            "erasure (presence of _onBounds changes nothing else), bounds_inv, on_bounds_calls for arbitrary tables, inputs and fuel over the model of parse(); the model's bounds log is compared with compiled parsers defining _onBounds on every run.",
+            TB, "Lean 4 invariants over the parser runtime model + correspondence", "§7 C16"),
+    "C19": ("proof",
+            "Numbering model theorems (EOF=0, ERROR=1, dense, injective, declaration order, ??? outside) + correspondence with the const block / _TokenToString emitted for random multi-file specs; accept parameters and row keys go through the table validators.",
+            TB, "Lean 4 theorems on the numbering model + correspondence", "§7 C19"),
 }
 
 NOT_YET = {
